@@ -136,4 +136,145 @@ theorem holdout_bridge_later {α} (ops : ElemOps α) (env : Env) (run : Nat) (s 
   simp [runFn, Tables.prog, Tables.holdoutInit, execOps, execOp, evalB, evalIx, M.enter, List.lookup, hrun,
     exec0s, exec0, M.setRng]
 
+/-! ### dynamic subset selection -/
+
+theorem run_reset_tr (env : Env) (k : Nat) (m : M Ex) :
+    runFn exOps Tables.prog env (k + 1) .resetAgeDifficulty [] (some .tr) m =
+      some { m with tr := resetAD m.tr, loc := [], ret := none } := by
+  simp [runFn, Tables.prog, Tables.resetAgeDifficulty, execOps, execOp, exec0, M.get, M.put, applyFn, exOps, resetAD]
+
+theorem run_reset_va (env : Env) (k : Nat) (m : M Ex) :
+    runFn exOps Tables.prog env (k + 1) .resetAgeDifficulty [] (some .va) m =
+      some { m with va := resetAD m.va, loc := [], ret := none } := by
+  simp [runFn, Tables.prog, Tables.resetAgeDifficulty, execOps, execOp, exec0, M.get, M.put, applyFn, exOps, resetAD]
+
+theorem run_clear (env : Env) (k : Nat) (m : M Ex) :
+    runFn exOps Tables.prog env (k + 1) .clearEvaluators [] none m =
+      some { m with clT := m.clT + 1, clV := m.clV + 1, loc := [], ret := none } := by
+  simp [runFn, Tables.prog, Tables.clearEvaluators, execOps, execOp, exec0]
+
+theorem run_move (env : Env) (k : Nat) (m : M Ex) :
+    runFn exOps Tables.prog env (k + 1) .moveToValidation [] none m =
+      some { m with tr := [], va := m.va ++ m.tr, loc := [], ret := none } := by
+  simp [runFn, Tables.prog, Tables.moveToValidation, execOps, execOp, exec0, M.get, M.put, evalIx, M.setRng]
+
+
+
+theorem call_move (env : Env) (k : Nat) (m : M Ex) :
+    callAt exOps Tables.prog env (k + 1) .moveToValidation none m =
+      some { m with tr := [], va := m.va ++ m.tr } := by
+  simp [callAt, run_move]
+
+theorem call_reset_tr (env : Env) (k : Nat) (m : M Ex) :
+    callAt exOps Tables.prog env (k + 1) .resetAgeDifficulty (some .tr) m =
+      some { m with tr := resetAD m.tr } := by
+  simp [callAt, run_reset_tr]
+
+theorem call_reset_va (env : Env) (k : Nat) (m : M Ex) :
+    callAt exOps Tables.prog env (k + 1) .resetAgeDifficulty (some .va) m =
+      some { m with va := resetAD m.va } := by
+  simp [callAt, run_reset_va]
+
+theorem call_clear (env : Env) (k : Nat) (m : M Ex) :
+    callAt exOps Tables.prog env (k + 1) .clearEvaluators none m =
+      some { m with clT := m.clT + 1, clV := m.clV + 1 } := by
+  simp [callAt, run_clear]
+
+
+def pivotOf (ts : Nat → Nat) (parted : List (Ex × Bool)) : Nat :=
+  if parted.countP (fun x => !x.2) = 0 ∨ parted.countP (fun x => !x.2) = parted.length then ts parted.length
+  else parted.countP (fun x => !x.2)
+
+theorem shakeImpl_parted (P : Partitioner) (ts sel) (s : St) (parted : List (Ex × Bool))
+    (h : parted = P.run (fun (x : Ex × Bool) => !x.2) ((s.va ++ s.tr).zipIdx.map fun x => (x.1, sel x.2))) :
+    shakeImpl P ts sel s =
+      ⟨resetAD ((parted.map (·.1)).drop (pivotOf ts parted)), (parted.map (·.1)).take (pivotOf ts parted)⟩ := by
+  subst h; rfl
+
+theorem run_shakeImpl (env : Env) (k : Nat) (m : M Ex)
+    (hts : env.ts (m.va.length + m.tr.length) ≤ m.va.length + m.tr.length) :
+    ∃ loc, runFn exOps Tables.prog env (k + 2) .shakeImpl [] none m =
+      some { m with tr := (shakeImpl env.P env.ts env.sel ⟨m.tr, m.va⟩).tr,
+                    va := (shakeImpl env.P env.ts env.sel ⟨m.tr, m.va⟩).va, loc := loc, ret := none } := by
+  rw [runFn_succ]
+  simp [Tables.prog, Tables.shakeImpl, execOps, execOp, exec0, call_move, call_reset_tr, M.get, M.put, M.setLoc,
+    evalB, evalIx, List.lookup, M.setRng, exec0s]
+  have hperm := env.P.perm (fun (y : Ex × Bool) => !y.2)
+    (List.map (fun x => (x.fst, env.sel x.snd)) (m.va ++ m.tr).zipIdx)
+  have hlen := hperm.length_eq
+  simp only [List.length_map, List.length_zipIdx, List.length_append] at hlen
+  clear hperm
+  obtain ⟨parted, hpt⟩ : ∃ p, p = env.P.run (fun (y : Ex × Bool) => !y.snd)
+      (List.map (fun x => (x.fst, env.sel x.snd)) (m.va ++ m.tr).zipIdx) := ⟨_, rfl⟩
+  rw [shakeImpl_parted env.P env.ts env.sel ⟨m.tr, m.va⟩ parted hpt]
+  rw [← hpt] at hlen ⊢
+  have hc : List.countP (fun (y : Ex × Bool) => !y.2) parted ≤ parted.length := List.countP_le_length
+  rw [← hlen] at hts
+  unfold pivotOf
+  by_cases h0 : List.countP (fun (y : Ex × Bool) => !y.2) parted = 0
+  · simp [List.lookup, hts, List.take_of_length_le, h0]
+  · by_cases h1 : List.countP (fun (y : Ex × Bool) => !y.2) parted = parted.length
+    · simp [h0, h1, List.lookup, hts, List.take_of_length_le]
+    · simp [h0, h1, List.lookup, hc, List.take_of_length_le]
+
+theorem call_shakeImpl (env : Env) (k : Nat) (m : M Ex)
+    (hts : env.ts (m.va.length + m.tr.length) ≤ m.va.length + m.tr.length) :
+    callAt exOps Tables.prog env (k + 2) .shakeImpl none m =
+      some { m with tr := (shakeImpl env.P env.ts env.sel ⟨m.tr, m.va⟩).tr,
+                    va := (shakeImpl env.P env.ts env.sel ⟨m.tr, m.va⟩).va } := by
+  obtain ⟨loc, h⟩ := run_shakeImpl env k m hts
+  simp [callAt, h]
+
+/-- what a strategy call leaves behind, read off the machine state -/
+def M.res (m : M Ex) (clT0 : Nat) : Res := ⟨⟨m.tr, m.va⟩, m.ret == some (some true), m.clT - clT0⟩
+
+theorem dssInit_bridge (env : Env) (run : Nat) (s : St) (rng clT clV : Nat)
+    (hts : env.ts (s.va.length + s.tr.length) ≤ s.va.length + s.tr.length) :
+    ∃ loc, runFn exOps Tables.prog env 3 .dssInit [("run", run)] none (M.enter s rng clT clV) =
+      some ⟨(dssInit env.P env.ts env.sel s).st.tr, (dssInit env.P env.ts env.sel s).st.va, loc, rng,
+            clT + 1, clV + 1, none⟩ := by
+  rw [runFn_succ]
+  have h := call_shakeImpl env 0 ⟨resetAD s.tr, resetAD s.va, [("run", run)], rng, clT, clV, none⟩
+    (by simpa [resetAD_length] using hts)
+  simp [Tables.prog, Tables.dssInit, execOps, execOp, exec0, call_reset_tr, call_reset_va, call_clear, M.enter, h,
+    dssInit]
+
+theorem dssClose_bridge (env : Env) (run : Nat) (s : St) (rng clT clV : Nat) :
+    ∃ loc, runFn exOps Tables.prog env 2 .dssClose [("run", run)] none (M.enter s rng clT clV) =
+      some ⟨(dssClose s).st.tr, (dssClose s).st.va, loc, rng, clT + 1, clV + 1, none⟩ := by
+  rw [runFn_succ]
+  simp [Tables.prog, Tables.dssClose, execOps, execOp, exec0, call_move, call_clear, M.enter, dssClose,
+    moveToValidation]
+
+theorem dssShake_bridge_skip (env : Env) (g : Nat) (s : St) (rng clT clV : Nat)
+    (h : g = 0 ∨ (0 < env.gap ∧ g % env.gap ≠ 0)) :
+    ∃ loc, runFn exOps Tables.prog env 3 .dssShake [("generation", g)] none (M.enter s rng clT clV) =
+      some ⟨s.tr, s.va, loc, rng, clT, clV, some (some false)⟩ := by
+  rw [runFn_succ]
+  rcases h with h | ⟨hg, h⟩
+  · simp [Tables.prog, Tables.dssShake, execOps, execOp, exec0, exec0s, M.enter, evalB, evalIx, List.lookup,
+      M.setLoc, M.setRng, h]
+  · by_cases h0 : g = 0
+    · simp [Tables.prog, Tables.dssShake, execOps, execOp, exec0, exec0s, M.enter, evalB, evalIx, List.lookup,
+        M.setLoc, M.setRng, h0]
+    · have : env.gap ≠ 0 := by omega
+      simp [Tables.prog, Tables.dssShake, execOps, execOp, exec0, exec0s, M.enter, evalB, evalIx, List.lookup,
+        M.setLoc, M.setRng, h0, h, this]
+
+theorem dssShake_bridge_reshuffle (env : Env) (g : Nat) (s : St) (rng clT clV : Nat)
+    (hg : g ≠ 0) (hgap : 0 < env.gap) (hd : g % env.gap = 0)
+    (hts : env.ts (s.va.length + s.tr.length) ≤ s.va.length + s.tr.length) :
+    ∃ loc, runFn exOps Tables.prog env 3 .dssShake [("generation", g)] none (M.enter s rng clT clV) =
+      some ⟨(shakeImpl env.P env.ts env.sel ⟨incAge s.tr, incAge s.va⟩).tr,
+            (shakeImpl env.P env.ts env.sel ⟨incAge s.tr, incAge s.va⟩).va, loc, rng,
+            clT + 1, clV + 1, some (some true)⟩ := by
+  rw [runFn_succ]
+  have hne : env.gap ≠ 0 := by omega
+  have h := call_shakeImpl env 0 ⟨incAge s.tr, incAge s.va, [("gap", env.gap), ("generation", g)], rng, clT, clV, none⟩
+    (by simpa [incAge] using hts)
+  have ea : applyFn exOps .incAge = Ex.older := rfl
+  have e1 : ∀ l, List.map Ex.older l = incAge l := fun _ => rfl
+  simp only [Nat.zero_add] at h
+  simp [Tables.prog, Tables.dssShake, execOps, execOp, exec0, exec0s, M.enter, evalB, evalIx, List.lookup,
+    M.setLoc, M.setRng, hg, hd, hne, M.get, M.put, ea, e1, h, call_clear]
 end Vita.C16
